@@ -314,6 +314,8 @@ func run(repo string, c *Case, iter int) {
 				Spec: api_v1.ServiceSpec{Ports: []api_v1.ServicePort{{Port: 80}, {Port: 443, Name: "tls"}}}}, meta_v1.CreateOptions{})
 		}
 		d.secretUpsert(ns, 0)
+		d.policyUpsert(ns, 0)
+		d.policyUpsert(ns, 1)
 	}
 
 	go lbc.Run()
@@ -467,7 +469,7 @@ func upstreams() []conf_v1.Upstream {
 func (d *driver) vs(ns string, i, w int, extra bool) *conf_v1.VirtualServer {
 	v := &conf_v1.VirtualServer{ObjectMeta: d.meta("vs", ns, fmt.Sprintf("vs%d", i), nil),
 		Spec: conf_v1.VirtualServerSpec{IngressClass: class, Host: fmt.Sprintf("vs%d.%s.example.com", i, ns),
-			TLS: &conf_v1.TLS{Secret: "tls-0"}, Upstreams: upstreams(),
+			TLS: &conf_v1.TLS{Secret: "tls-0"}, Upstreams: upstreams(), Policies: []conf_v1.PolicyReference{{Name: "rl0"}},
 			Routes: []conf_v1.Route{{Path: "/", Splits: splits(w)}}}}
 	if i == 0 {
 		v.Spec.Routes = append(v.Spec.Routes, conf_v1.Route{Path: "/r", Route: ns + "/vsr0"})
@@ -629,6 +631,22 @@ func (d *driver) tsDelete(ns string, i int) {
 // The ConfigMap informer is built on CoreV1().RESTClient(), which the fake clientset does not have,
 // so it cannot run here; the only thing its handlers do is lbc.AddSyncQueue(configMap), which the
 // driver does in their place.  The worker then runs the production syncConfigMap -> updateAllConfigs.
+// rate-limit Policies referenced by every VirtualServer: rl0 spells the unit in lower case, rl1 in upper case
+// (the validators are handed the informer store's own Policy objects by the worker, by telemetry and by the
+// leader callback; whatever they do to them, they do to shared memory)
+func (d *driver) policyUpsert(ns string, i int) {
+	d.op("policy-upsert")
+	rate := fmt.Sprintf("%dr/s", 5+d.rng.Intn(50))
+	if i == 1 {
+		rate = fmt.Sprintf("%dr/S", 5+d.rng.Intn(50))
+	}
+	pol := &conf_v1.Policy{ObjectMeta: d.meta("pol", ns, fmt.Sprintf("rl%d", i), nil),
+		Spec: conf_v1.PolicySpec{IngressClass: class, RateLimit: &conf_v1.RateLimit{Rate: rate, Key: "${binary_remote_addr}", ZoneSize: "10M"}}}
+	if _, err := d.conf.K8sV1().Policies(ns).Update(d.ctx, pol, meta_v1.UpdateOptions{}); err != nil {
+		d.conf.K8sV1().Policies(ns).Create(d.ctx, pol, meta_v1.CreateOptions{})
+	}
+}
+
 func (d *driver) configMap() {
 	d.op("configmap-update")
 	d.lbc.AddSyncQueue(&api_v1.ConfigMap{ObjectMeta: meta_v1.ObjectMeta{Name: "nginx-config", Namespace: ctrlNS},
@@ -689,6 +707,10 @@ func (d *driver) step() {
 		}
 		d.nsB = !d.nsB
 	case 19:
-		d.vsUpsert(ns, i)
+		if d.rng.Bool() {
+			d.vsUpsert(ns, i)
+		} else {
+			d.policyUpsert(ns, d.rng.Intn(2))
+		}
 	}
 }
